@@ -180,6 +180,42 @@ func TestVerifBounded(t *testing.T) {
 			check([]int{i, j, k})
 		}
 	}
-	fmt.Printf("BOUNDED {\"check\":\"lib/search matcher vs segment-wise definition\",\"bound\":\"patterns: 0..3 segments over {a,b,:x,:y}; tables: all of size 1..2 (both insertion orders), size 3 %s; paths: 0..3 segments over {a,b,c}\",\"tables\":%d,\"evaluations\":%d,\"distinct_nontrivial\":%d,\"exhaustive\":%v}\n",
+	// literal segments that contain (but do not start with) ':' are literals: they must keep their priority over
+	// parameters. The matcher visits children in map order, so every table is rebuilt and searched 40 times.
+	pats, paths = nil, nil
+	var rec2 func(cur []string, d int, syms []string, out *[][]string)
+	rec2 = func(cur []string, d int, syms []string, out *[][]string) {
+		if d > 0 {
+			*out = append(*out, append([]string(nil), cur...))
+		}
+		if d == 2 {
+			return
+		}
+		for _, s := range syms {
+			if len(s) > 0 && s[0] == ':' {
+				dup := false
+				for _, c := range cur {
+					dup = dup || c == s
+				}
+				if dup {
+					continue
+				}
+			}
+			rec2(append(cur, s), d+1, syms, out)
+		}
+	}
+	rec2(nil, 0, []string{"a", "a:b", "u:", ":x"}, &pats)
+	rec2(nil, 0, []string{"a", "a:b", "u:", "c"}, &paths)
+	n2 := len(pats)
+	for rep := 0; rep < 40; rep++ {
+		for i := 0; i < n2; i++ {
+			for j := 0; j < n2; j++ {
+				if i != j {
+					check([]int{i, j})
+				}
+			}
+		}
+	}
+	fmt.Printf("BOUNDED {\"check\":\"lib/search matcher vs segment-wise definition\",\"bound\":\"patterns: 0..3 segments over {a,b,:x,:y}; tables: all of size 1..2 (both insertion orders), size 3 %s; paths: 0..3 segments over {a,b,c}; plus all ordered pairs of patterns of 1..2 segments over {a,a:b,u:,:x} against paths over {a,a:b,u:,c}, each rebuilt 40 times (map order)\",\"tables\":%d,\"evaluations\":%d,\"distinct_nontrivial\":%d,\"exhaustive\":%v}\n",
 		map[bool]string{true: "exhaustive", false: "20000 sampled by VERIF_SEED"}[thorough], tables, searches, nontrivial, thorough)
 }
